@@ -1,7 +1,7 @@
 """C13 - editing a model invalidates everything derived from the old model.
 
 Small-scope exhaustive histories: ALL operation sequences up to a length bound
-over an alphabet of 16 operations chosen to cross every cache boundary
+over an alphabet of 17 operations chosen to cross every cache boundary
 (LP objective <-> quadratic objective, flip sense, add linear / nonlinear
 constraint, add a list of constraints introducing a new variable, tighten /
 change a bound, solve with auto / SLSQP / trust-constr / linprog / BFGS (a method that ignores bounds), read
@@ -81,7 +81,7 @@ BASES = {
         "bvar": "x[0]",
     },
 }
-OPS = ["min-lin", "min-quad", "max", "max-lin", "flip-same-object", "add-lin", "add-list", "add-nl", "tighten", "rebound", "solve-auto", "solve-SLSQP",
+OPS = ["min-lin", "min-quad", "max", "max-lin", "flip-same-object", "add-lin", "add-list", "add-nl", "add-mixed-list", "tighten", "rebound", "solve-auto", "solve-SLSQP",
        "solve-trust-constr", "solve-linprog", "solve-BFGS", "read"]
 OBS = {"solve-auto", "solve-SLSQP", "solve-trust-constr", "solve-linprog", "solve-BFGS", "read"}
 
@@ -140,6 +140,15 @@ def apply(op, M, P, b):
         M.constraints.extend(base["c_list"])
         lst = []
         for r in base["c_list"]:
+            c = b.rel(r)
+            lst.extend(c if isinstance(c, list) else [c])
+        P.subject_to(lst)
+    elif op == "add-mixed-list":
+        # one subject_to call with a list holding a linear and a non-linear constraint (order alternates)
+        pair = [base["c_lin"], base["c_nl"]] if len(M.constraints) % 2 == 0 else [base["c_nl"], base["c_lin"]]
+        M.constraints.extend(pair)
+        lst = []
+        for r in pair:
             c = b.rel(r)
             lst.extend(c if isinstance(c, list) else [c])
         P.subject_to(lst)
